@@ -37,6 +37,25 @@ impl<T> Vec<T> {
     { unimplemented!() }
 }
 
+impl<T> Vec<T> {
+    #[verifier::external_body]
+    pub fn len(&self) -> (r: usize)
+        ensures r == self@.len(),
+    { unimplemented!() }
+}
+
+// v[i]
+impl<T> ::vstd::std_specs::core::IndexSpecImpl<usize> for Vec<T> {
+    open spec fn index_req(&self, index: &usize) -> bool { *index < self@.len() }
+}
+impl<T> ::core::ops::Index<usize> for Vec<T> {
+    type Output = T;
+    #[verifier::external_body]
+    fn index(&self, index: usize) -> (r: &T)
+        ensures *r == self@[index as int],
+    { unimplemented!() }
+}
+
 impl<T: Clone> Clone for Vec<T> {
     #[verifier::external_body]
     fn clone(&self) -> (r: Vec<T>)
@@ -240,6 +259,17 @@ verus! {
 impl<'a, T, P> IntoIter for &'a Punctuated<T, P> {
     type Item = &'a T;
     open spec fn into_items(&self) -> Seq<&'a T> { refs(self.pseq()) }
+}
+// p[i]
+impl<T, P> ::vstd::std_specs::core::IndexSpecImpl<usize> for Punctuated<T, P> {
+    open spec fn index_req(&self, index: &usize) -> bool { *index < self.pseq().len() }
+}
+impl<T, P> ::core::ops::Index<usize> for Punctuated<T, P> {
+    type Output = T;
+    #[verifier::external_body]
+    fn index(&self, index: usize) -> (r: &T)
+        ensures *r == self.pseq()[index as int],
+    { unimplemented!() }
 }
 impl<T, P> Punctuated<T, P> {
     #[verifier::external_body]
